@@ -405,6 +405,7 @@ func run3(c *fw.Ctx) {
 	runFrameLimit(c)
 	runCaptured(c)
 	runRepetition(c)
+	runStdCallbacks(c)
 	if c.Thorough() {
 		// flat space without context, one node deeper
 		c.Family("flat", "core<=5 nodes, no context, no prefix")
